@@ -956,6 +956,73 @@ theorem commitT_facts (tn e : Nat) (X : Tran) :
     · right; exact ⟨by simpa [Tran.active] using h.2, rfl⟩
   · exact ⟨rfl, rfl, rfl, fun _ _ _ h => h, fun _ _ _ _ h => h, fun _ => rfl, Or.inl rfl⟩
 
+theorem inv_commit_mid {s : State} (i : CkInv s) (tn : Nat) (T : Tran) (oldest' : Option Nat)
+    (hold : oldest' = s.oldest ∨ oldest' = none) (dead : List Nat) :
+    CkInv (if T.hasUpdates = true then
+        { s with seq := s.seq + 2, oldest := oldest', trans := s.trans.map (commitT tn (s.seq + 2)) }
+      else { s with seq := s.seq + 2, oldest := oldest',
+                    trans := s.trans.filter (fun t => !(t.start == tn && t.active)), deadRc := dead }) := by
+  split
+  · have mem : ∀ T' ∈ s.trans.map (commitT tn (s.seq + 2)), ∃ X ∈ s.trans, T' = commitT tn (s.seq + 2) X := by
+      intro T' h; rw [List.mem_map] at h; obtain ⟨X, hX, rfl⟩ := h; exact ⟨X, hX, rfl⟩
+    constructor
+    · intro T' hT' h
+      obtain ⟨X, hX, rfl⟩ := mem T' hT'
+      obtain ⟨-, f2, f3, -⟩ := commitT_facts tn (s.seq + 2) X
+      rw [f3]; rw [f2] at h; exact i.rcNoUpd X hX h
+    · intro T' hT' tbl idx k h
+      obtain ⟨X, hX, rfl⟩ := mem T' hT'
+      obtain ⟨-, -, f3, f4, -⟩ := commitT_facts tn (s.seq + 2) X
+      rw [f3]; exact i.wrUpd X hX tbl idx k (f4 _ _ _ h)
+    · intro A' hA' B' hB' hne hact hov tbl idx f t k hr hw hin
+      obtain ⟨A, hA, rfl⟩ := mem A' hA'
+      obtain ⟨B, hB, rfl⟩ := mem B' hB'
+      obtain ⟨a1, -, -, -, -, a6, -⟩ := commitT_facts tn (s.seq + 2) A
+      obtain ⟨b1, -, -, b4, -, -, b7⟩ := commitT_facts tn (s.seq + 2) B
+      have eA := a6 hact
+      rw [eA] at hact hov hr hne ⊢
+      rw [b1] at hne hov
+      have hAe : A.end_ = none := by simpa [Tran.active] using hact
+      refine i.conf A hA B hB hne hact ?_ tbl idx f t k hr (b4 _ _ _ hw) hin
+      rcases b7 with b7 | ⟨b7, -⟩
+      · rw [b7] at hov; exact hov
+      · simp [overlap, hAe, b7]
+    · have := i.sorted
+      simp only [List.pairwise_map]
+      refine this.imp ?_
+      intro a b hab
+      rw [(commitT_facts tn (s.seq + 2) a).1, (commitT_facts tn (s.seq + 2) b).1]; exact hab
+    · intro T' hT'
+      obtain ⟨X, hX, rfl⟩ := mem T' hT'
+      obtain ⟨f1, -, -, -, -, -, f7⟩ := commitT_facts tn (s.seq + 2) X
+      obtain ⟨h1, h2⟩ := i.bound X hX
+      refine ⟨by rw [f1]; simp; omega, ?_⟩
+      intro e he
+      rcases f7 with f7 | ⟨-, f7⟩
+      · rw [f7] at he; have := h2 e he; simp; omega
+      · rw [f7] at he; simp at he; simp; omega
+    · intro o h
+      simp only at h
+      rcases hold with hold | hold
+      · rw [hold] at h
+        obtain ⟨h1, h2⟩ := i.oldestOK o h
+        refine ⟨by simp; omega, ?_⟩
+        intro A' hA' ha
+        obtain ⟨A, hA, rfl⟩ := mem A' hA'
+        have eA := (commitT_facts tn (s.seq + 2) A).2.2.2.2.2.1 ha
+        rw [eA] at ha ⊢; exact h2 A hA ha
+      · rw [hold] at h; simp at h
+  · have i1 : CkInv { s with seq := s.seq + 2, oldest := oldest' } :=
+      inv_congr i rfl (by simp) hold
+    refine (frame_filter (s := _) (s' := _) (fun t => !(t.start == tn && t.active)) (by rfl) (by rfl) ?_ ?_).inv i1
+    · intro o h
+      obtain ⟨h1, h2⟩ := i1.oldestOK o h
+      refine ⟨h1, ?_⟩
+      intro A hA ha
+      simp only [List.mem_filter] at hA
+      exact h2 A hA.1 ha
+    · intro X _ hp hna; simp [hna] at hp
+
 theorem inv_commit {s : State} (i : CkInv s) (tn : Nat) : CkInv (commit s tn).1 := by
   unfold commit
   cases hf : s.trans.find? (fun t => t.start == tn && t.active) with
@@ -965,70 +1032,7 @@ theorem inv_commit {s : State} (i : CkInv s) (tn : Nat) : CkInv (commit s tn).1 
     generalize ho : (if s.oldest == some tn then none else s.oldest) = oldest'
     have hold : oldest' = s.oldest ∨ oldest' = none := by subst ho; split <;> simp
     generalize hd : (if T.rc = true then tn :: s.deadRc else s.deadRc) = dead
-    have i2 : CkInv (if T.hasUpdates = true then
-        { s with seq := s.seq + 2, oldest := oldest', trans := s.trans.map (commitT tn (s.seq + 2)) }
-      else { s with seq := s.seq + 2, oldest := oldest',
-                    trans := s.trans.filter (fun t => !(t.start == tn && t.active)), deadRc := dead }) := by
-      split
-      · have mem : ∀ T' ∈ s.trans.map (commitT tn (s.seq + 2)), ∃ X ∈ s.trans, T' = commitT tn (s.seq + 2) X := by
-          intro T' h; rw [List.mem_map] at h; obtain ⟨X, hX, rfl⟩ := h; exact ⟨X, hX, rfl⟩
-        constructor
-        · intro T' hT' h
-          obtain ⟨X, hX, rfl⟩ := mem T' hT'
-          obtain ⟨-, f2, f3, -⟩ := commitT_facts tn (s.seq + 2) X
-          rw [f3]; rw [f2] at h; exact i.rcNoUpd X hX h
-        · intro T' hT' tbl idx k h
-          obtain ⟨X, hX, rfl⟩ := mem T' hT'
-          obtain ⟨-, -, f3, f4, -⟩ := commitT_facts tn (s.seq + 2) X
-          rw [f3]; exact i.wrUpd X hX tbl idx k (f4 _ _ _ h)
-        · intro A' hA' B' hB' hne hact hov tbl idx f t k hr hw hin
-          obtain ⟨A, hA, rfl⟩ := mem A' hA'
-          obtain ⟨B, hB, rfl⟩ := mem B' hB'
-          obtain ⟨a1, -, -, -, -, a6, -⟩ := commitT_facts tn (s.seq + 2) A
-          obtain ⟨b1, -, -, b4, -, -, b7⟩ := commitT_facts tn (s.seq + 2) B
-          have eA := a6 hact
-          rw [eA] at hact hov hr hne ⊢
-          rw [b1] at hne hov
-          have hAe : A.end_ = none := by simpa [Tran.active] using hact
-          refine i.conf A hA B hB hne hact ?_ tbl idx f t k hr (b4 _ _ _ hw) hin
-          rcases b7 with b7 | ⟨b7, -⟩
-          · rw [b7] at hov; exact hov
-          · simp [overlap, hAe, b7]
-        · have := i.sorted
-          simp only [List.pairwise_map]
-          refine this.imp ?_
-          intro a b hab
-          rw [(commitT_facts tn (s.seq + 2) a).1, (commitT_facts tn (s.seq + 2) b).1]; exact hab
-        · intro T' hT'
-          obtain ⟨X, hX, rfl⟩ := mem T' hT'
-          obtain ⟨f1, -, -, -, -, -, f7⟩ := commitT_facts tn (s.seq + 2) X
-          obtain ⟨h1, h2⟩ := i.bound X hX
-          refine ⟨by rw [f1]; simp; omega, ?_⟩
-          intro e he
-          rcases f7 with f7 | ⟨-, f7⟩
-          · rw [f7] at he; have := h2 e he; simp; omega
-          · rw [f7] at he; simp at he; simp; omega
-        · intro o h
-          simp only at h
-          rcases hold with hold | hold
-          · rw [hold] at h
-            obtain ⟨h1, h2⟩ := i.oldestOK o h
-            refine ⟨by simp; omega, ?_⟩
-            intro A' hA' ha
-            obtain ⟨A, hA, rfl⟩ := mem A' hA'
-            have eA := (commitT_facts tn (s.seq + 2) A).2.2.2.2.2.1 ha
-            rw [eA] at ha ⊢; exact h2 A hA ha
-          · rw [hold] at h; simp at h
-      · have i1 : CkInv { s with seq := s.seq + 2, oldest := oldest' } :=
-          inv_congr i rfl (by simp) hold
-        refine (frame_filter (s := _) (s' := _) (fun t => !(t.start == tn && t.active)) (by rfl) (by rfl) ?_ ?_).inv i1
-        · intro o h
-          obtain ⟨h1, h2⟩ := i1.oldestOK o h
-          refine ⟨h1, ?_⟩
-          intro A hA ha
-          simp only [List.mem_filter] at hA
-          exact h2 A hA.1 ha
-        · intro X _ hp hna; simp [hna] at hp
+    have i2 := inv_commit_mid i tn T oldest' hold dead
     by_cases hu : T.hasUpdates = true
     · rw [if_pos hu] at i2
       simp only [hu, if_true]
